@@ -49,6 +49,7 @@ Clauses(e) ==
       clean  == IsOk(e.craised) /\ (IsOk(e.ff) \/ IsRule(e.ff)) /\ \A n \in vis : IsOk(e.nodeRaised[n]) /\ (IsOk(e.nodeFF[n]) \/ IsRule(e.nodeFF[n]))
   IN {"node:" \o c : c \in nodeCl} \cup {"tree:" \o c : c \in treeCl}
      \cup (IF clean /\ [j \in 1..Len(e.coll) |-> <<e.coll[j][1], e.coll[j][2]>>] # TreeErrs(e, e.root) THEN {"tree-errors-not-concatenation-of-node-errors"} ELSE {})
+     \cup (IF clean /\ ~e.rerun THEN {"tree-errors-of-a-second-run-into-the-same-list-differ"} ELSE {})    \* the list is the caller's: what it holds is no input
      \cup (IF clean /\ (IsOk(e.ff) # (\A n \in vis : IsOk(e.nodeFF[n]))) THEN {"tree-failfast-not-conjunction-of-nodes"} ELSE {})
      \cup (IF clean /\ e.per_node /\ \E n \in vis : e.name[n] = "metadata" /\ MetadataWrong(e, n) THEN {"metadata-outcome-depends-on-more-than-its-child-count"} ELSE {})
 
